@@ -608,6 +608,10 @@ pub fn families(id: &str, quick: bool) -> Vec<Family> {
                     f.extend(indep_family(&format!("{nm} T3..8 J<=2 C<=2"), Some(bw), vec![(1, 1), (0, 2), (2, 0)], grid(3, 8, 2, 2, true), sups.clone()));
                     f.extend(indep_family(&format!("{nm} T{{5,9}} J<=1 C<=2"), Some(bw), vec![(1, 2), (0, 3)],
                         [5u64, 9].iter().flat_map(|t| (0..=1u64).flat_map(move |j| (1..=2u64).map(move |c| (ArrSpec::Sporadic { t: *t, j }, c)))).collect(), sups.clone()));
+                    // short periods, unit costs: several polling points inside one response time,
+                    // where the relative priority of polled callbacks decides the bound
+                    f.extend(indep_family(&format!("{nm} T{{3,4,7}} J{{0,2}} C=1"), Some(bw), vec![(0, 3), (1, 2)],
+                        [3u64, 4, 7].iter().flat_map(|t| [0u64, 2].into_iter().map(move |j| (ArrSpec::Sporadic { t: *t, j }, 1u64))).collect(), sups.clone()));
                 } else {
                     f.extend(indep_family(&format!("{nm} T2..12 J<=3 C<=2"), Some(bw), vec![(1, 1), (0, 2), (2, 0)], grid(2, 12, 3, 2, true), sups.clone()));
                     f.extend(indep_family(&format!("{nm} T{{3,4,6,8,12}} J<=2 C<=2"), Some(bw), vec![(1, 2), (2, 1), (0, 3)],
